@@ -1,7 +1,7 @@
 ---------------------------- MODULE CsrBankGraph ----------------------------
 (* G-mode product of CsrBankContract with the transition graph of the real   *)
 (* CSRBankArray + interconnect netlists (harness/graphloop.py).              *)
-EXTENDS CsrBankContract, Json, IOUtils
+EXTENDS CsrBankContract, Json, IOUtils, GraphLookup
 
 G == JsonDeserialize(IOEnv.GRAPH)
 NDuts == Len(G.duts)
@@ -14,11 +14,10 @@ Init == /\ d \in 1..NDuts /\ s = 0 /\ CInit(C)
 
 Step(iv) ==
   /\ s >= 0
-  /\ LET k == ToString(iv) IN
-       IF k \in DOMAIN G.duts[d].succ[s + 1]
-       THEN LET e == G.duts[d].succ[s + 1][k] IN
-            /\ s' = e.d /\ d' = d
-            /\ CStep(C, iv, e.o)
+  /\ LET e == GLookup(G.duts[d].succ[s + 1], iv) IN        \* <<iv, outputs, successor>> or <<>>
+       IF e # <<>>
+       THEN /\ s' = e[3] /\ d' = d
+            /\ CStep(C, iv, e[2])
        ELSE /\ PrintT(<<"NEED", d, s, iv>>)
             /\ s' = -1 /\ d' = d /\ UNCHANGED cvars
 
